@@ -131,7 +131,7 @@ func (g *gen) genHierarchy() {
 	n := g.Int(2, 6, "ntypes")
 	for i := 0; i < n; i++ {
 		td := &typeDef{name: fmt.Sprintf("%sT%d", g.Px, i), kind: "struct"}
-		if k := g.Pick(10, "kind"); k == 0 {
+		if k := g.Pick(12, "kind"); k == 0 {
 			td.kind = "int"
 		} else if k == 1 {
 			td.kind = "string"
@@ -142,13 +142,13 @@ func (g *gen) genHierarchy() {
 		if td.kind == "struct" {
 			// embedded types: earlier types, depth limit 3
 			if i > 0 {
-				ne := g.Pick(4, "nembeds")
-				if ne == 3 {
-					ne = 2
-				}
+				ne := []int{1, 1, 2, 2, 0, 1}[g.Pick(6, "nembeds")]
 				seen := map[int]bool{}
 				for k := 0; k < ne; k++ {
 					j := g.Pick(i, "embed-which")
+					if k == 0 && g.Bool("embed-previous") {
+						j = i - 1 // chains: depth grows
+					}
 					if seen[j] || g.types[j].depth+1 > 3 {
 						continue
 					}
@@ -384,6 +384,7 @@ type sel struct {
 	ptrRecv  bool
 	owner    int // index of the type declaring the method
 	shadow   bool
+	f14      bool // a method that hides >= 2 same-depth fields of the same name (F-C09-14)
 }
 
 func (g *gen) typeOf(ti int, ptr bool) types.Type {
@@ -449,6 +450,17 @@ func (g *gen) look(ti int, ptr, addr bool, name string) sel {
 			rt = p.Elem()
 		}
 		s.owner = g.tiOfNamed(rt)
+		var focc []int
+		g.fieldOcc(ti, name, 0, &focc)
+		min, cnt := -1, 0
+		for _, d := range focc {
+			if min < 0 || d < min {
+				min, cnt = d, 1
+			} else if d == min {
+				cnt++
+			}
+		}
+		s.f14 = cnt >= 2
 	}
 	return s
 }
@@ -472,6 +484,19 @@ func (g *gen) occurrences(ti int, name string, depth int, out *[]int) {
 			*out = append(*out, depth)
 		}
 		g.occurrences(e.ti, name, depth+1, out)
+	}
+}
+
+// fieldOcc lists the depths at which a plain field called name occurs below type ti.
+func (g *gen) fieldOcc(ti int, name string, depth int, out *[]int) {
+	td := g.types[ti]
+	for _, f := range td.fields {
+		if f.name == name {
+			*out = append(*out, depth)
+		}
+	}
+	for _, e := range td.embeds {
+		g.fieldOcc(e.ti, name, depth+1, out)
 	}
 }
 
@@ -616,6 +641,22 @@ func (g *gen) obsStmt(r rexpr) string {
 // pickRecv draws a receiver expression, possibly extended by explicit embedded-field steps.
 func (g *gen) pickRecv() rexpr {
 	r := g.recvs[g.Pick(len(g.recvs), "recv")]
+	if g.Bool("recv-prefer-deep") {
+		// prefer a receiver whose type has the longest embedding chain
+		best := 0
+		for _, c := range g.recvs {
+			if d := g.types[c.ti].depth; d > best {
+				best = d
+			}
+		}
+		var deep []rexpr
+		for _, c := range g.recvs {
+			if g.types[c.ti].depth == best {
+				deep = append(deep, c)
+			}
+		}
+		r = deep[g.Pick(len(deep), "recv-deep")]
+	}
 	for steps := 0; steps < 2 && g.Chance(1, 4, "explicit-step"); steps++ {
 		td := g.types[r.ti]
 		if len(td.embeds) == 0 {
@@ -724,7 +765,7 @@ func (g *gen) methodDecl(ti int, m methDef) string {
 	if td.kind == "struct" && g.Chance(1, 2, "inner-call") {
 		for _, name := range pool {
 			s := g.look(ti, m.ptr, true, name)
-			if s.kind == selMethod && s.owner >= 0 && s.owner < ti && s.res == m.res {
+			if s.kind == selMethod && s.owner >= 0 && s.owner < ti && s.res == m.res && !(s.f14 && excl("F-C09-14")) {
 				inner = fmt.Sprintf("r.%s(%s)", name, g.args(s.params))
 				g.Tag("method-calls-promoted-method")
 				break
@@ -761,11 +802,25 @@ func (g *gen) guarded(body string) string {
 	return fmt.Sprintf("func() {\n\tdefer func() { rec.R(\"g%d\", recover()) }()\n%s}()\n", g.Ev(), progen.Indent(body))
 }
 
+// nameOrder returns names in a drawn rotation; with probability 1/2 the names that
+// resolve through the most embedding levels on r come first.
+func (g *gen) nameOrder(r rexpr, names []string) []string {
+	start := g.Pick(len(names), "name-start")
+	out := make([]string, 0, len(names))
+	for k := range names {
+		out = append(out, names[(start+k)%len(names)])
+	}
+	if g.Bool("name-prefer-deep") {
+		sort.SliceStable(out, func(i, j int) bool {
+			return g.look(r.ti, r.ptr, r.addr, out[i]).depth > g.look(r.ti, r.ptr, r.addr, out[j]).depth
+		})
+	}
+	return out
+}
+
 func (g *gen) siteFieldRead() string {
 	r := g.pickRecv()
-	start := g.Pick(len(pool), "name-start")
-	for k := 0; k < len(pool); k++ {
-		name := pool[(start+k)%len(pool)]
+	for _, name := range g.nameOrder(r, pool) {
 		s := g.look(r.ti, r.ptr, r.addr, name)
 		if s.kind == selField && s.ftyp != "" {
 			g.noteSel(s)
@@ -778,9 +833,7 @@ func (g *gen) siteFieldRead() string {
 
 func (g *gen) siteFieldWrite() string {
 	r := g.pickRecv()
-	start := g.Pick(len(pool), "name-start")
-	for k := 0; k < len(pool); k++ {
-		name := pool[(start+k)%len(pool)]
+	for _, name := range g.nameOrder(r, pool) {
 		s := g.look(r.ti, r.ptr, r.addr, name)
 		if s.kind == selField && s.ftyp != "" && (r.addr || s.indirect) {
 			if !r.addr && !r.ptr && excl("F-C09-5") {
@@ -803,13 +856,14 @@ func (g *gen) siteFieldWrite() string {
 
 // pickMethod finds a method selectable on r.
 func (g *gen) pickMethod(r rexpr) (string, sel, bool) {
-	start := g.Pick(len(selNames), "mname-start")
-	for k := 0; k < len(selNames); k++ {
-		name := selNames[(start+k)%len(selNames)]
+	for _, name := range g.nameOrder(r, selNames) {
 		s := g.look(r.ti, r.ptr, r.addr, name)
 		if s.kind == selMethod {
 			if k := g.types[r.ti].kind; s.ptrRecv && !r.ptr && s.depth == 0 && (k == "int" || k == "string") && excl("F-C09-3") {
 				// pointer method on an addressable operand of a named basic type
+				continue
+			}
+			if s.f14 && excl("F-C09-14") {
 				continue
 			}
 			return name, s, true
@@ -874,7 +928,7 @@ func (g *gen) siteMethodValue() string {
 	g.Tag("method-value")
 	f := g.Local("mv")
 	st := fmt.Sprintf("%s := %s.%s\n", f, r.text, name)
-	if g.Chance(2, 3, "mv-mutate") {
+	if g.Chance(2, 3, "mv-mutate") && !(!s.ptrRecv && excl("F-C09-13")) {
 		// the receiver is evaluated and (for value receivers) copied when the method
 		// value is created
 		st += g.mutateBase(r)
@@ -1051,7 +1105,7 @@ func (g *gen) siteIface() string {
 			}
 			iv := g.Local("iv")
 			st := fmt.Sprintf("var %s %s = %s\n", iv, id.text(), d.text)
-			if g.Chance(1, 2, "iface-mutate") {
+			if g.Chance(1, 2, "iface-mutate") && !(!d.ptr && excl("F-C09-12")) {
 				st += g.mutateBase(r) // a stored value is a copy, a stored pointer is not
 				g.Tag("iface-store-then-mutate")
 			}
